@@ -13,8 +13,6 @@ import (
 	"errors"
 	"fmt"
 	"math/big"
-	"os"
-	"strings"
 	"sync"
 
 	"github.com/btcsuite/btcd/btcec/v2"
@@ -41,20 +39,11 @@ const c18KeyStartAboveCeiling = "C18:start-above-ceiling"
 // fails with ErrNotEnoughBudget instead of paying the budget.
 const c18KeyBudgetRateRoundedUp = "C18:budget-rate-rounded-up"
 
-// c18Known reports whether a finding is to be excluded by construction.
-// VERIF_C18_DEV_KNOWN (comma separated keys) is a development-only override
-// used before the lead has registered a key in known_findings.json.
+// c18Known reports whether a finding is listed as known, in which case its
+// input class is excluded by construction (and counted); otherwise the class
+// is generated and the oracle asserts on it, so a repair re-enables it.
 func c18Known(key string) bool {
-	if vstats.IsKnown(key) {
-		return true
-	}
-	for _, k := range strings.Split(os.Getenv("VERIF_C18_DEV_KNOWN"), ",") {
-		if k == key {
-			return true
-		}
-	}
-
-	return false
+	return vstats.IsKnown(key)
 }
 
 func c18F2Known() bool { return c18Known(c18KeyStartAboveCeiling) }
